@@ -83,6 +83,11 @@ func c20Check(c *Ctx, body []byte, useGzip bool, desc map[string]any) {
 	if useGzip {
 		hdr.Set("Content-Encoding", "gzip")
 		wire = gz(body)
+		if len(body) >= 2 && len(body)%3 == 0 {
+			// every third length: the same bytes as two concatenated gzip members (valid per RFC 1952)
+			h := len(body) / 2
+			wire = append(gz(body[:h]), gz(body[h:])...)
+		}
 	}
 	var out []byte
 	var outHdr http.Header
